@@ -144,7 +144,7 @@ class Registry:
 REG = Registry()
 
 
-def collect_index_terms(formulas, limit=60):
+def collect_index_terms(formulas, limit=90):
     seen = set()
     out = []
     visited = set()
@@ -356,7 +356,7 @@ def solve(hyps, goal_negated, timeout_ms=10000, want_model=True, len_terms=(), m
         # 1c. list views shift indices (pop/insert by 1, slices and concatenations by a length or a ghost count):
         #     close the index set under those offsets and try once more
         offs = collect_offsets(base)
-        terms = collect_index_terms(base + insts, limit=40)
+        terms = collect_index_terms(base + insts, limit=150)
         tids = set(t.get_id() for t in terms)
         terms = terms + [t for t in bound_terms(fas) if t.get_id() not in tids]
         ext = list(terms)
@@ -368,7 +368,7 @@ def solve(hyps, goal_negated, timeout_ms=10000, want_model=True, len_terms=(), m
                     if cand.get_id() not in seen:
                         seen.add(cand.get_id())
                         ext.append(cand)
-        new = _instantiate([fa for fa in fas if fa.n == 1], ext[:400], done, cap=20000)
+        new = _instantiate([fa for fa in fas if fa.n == 1], ext[:900], done, cap=40000)
         if new:
             insts.extend(new)
             s1 = _mk_solver(timeout_ms)
